@@ -7,7 +7,10 @@
    file the ide-level result names (C09_definition, C09_references, C09_document_symbol, C09_folding_range,
    C09_inlay_hint, C09_document_link, C09_diagnostics; C09_old_refuted = the defect D6 in the pre-fix handler);
 3. oracle: generated multi-file workspaces (includes two levels deep, different line structure per file, non-ASCII
-   characters before the identifiers, LF / CRLF, an included document opened with a text different from the disk):
+   characters before the identifiers, LF / CRLF, last lines without terminator and with non-ASCII text left of their
+   spans, an included document opened with a text different from the disk; and the disk-rewrite family: an included
+   file that is not open is rewritten ON DISK - lines inserted above its symbols - between two notifications of the
+   root; "current text" of such a file = the disk content at the last notification, which the server re-reads):
    every definition/references answer at every position where the analysis finds a symbol, documentSymbol /
    foldingRange / documentLink / inlayHint for every file, and every publishDiagnostics, taken from the real
    server's JSON, is compared with the ide-level result converted by an INDEPENDENT reference mapper (written
@@ -28,6 +31,7 @@ TRUSTED = [
     "model/ServerProto.v part 2 as a model of the conversion step of the handlers of server.rs and of to_proto.rs (tied to the code by the correspondence run of this check); model/LineIndex.v as a model of line_index.rs (tied by checks/C10.py); URIs identified with file ids (the Vfs file set is a bijection between ids and paths; Url::from_file_path/to_file_path are inverse on the absolute paths used)",
     "hypotheses of the theorems: files below 4 GiB; the analysis returns offsets on character boundaries of the file the result names (property C17)",
     "the position of a request is converted to an offset by from_proto with the requesting file's index (property C10); hover and completion responses carry no range",
+    "the Coq model's workspace is one snapshot (content : file -> text); that the snapshot's text of a never-opened included file is what the server last read from disk, also when the file is rewritten on disk between two notifications of the root, is exercised by the oracle only (disk-rewrite session family), not modelled",
     "Coq extraction (ExtrOcamlBasic only), coq/extract/server_driver.ml, harness lspdrive / idedump, lib/serverlib.py (reference position mapper), this driver",
 ]
 
@@ -81,28 +85,79 @@ def gen_ws(rng):
     if rng.random() < 0.3:
         main += ["defm mm : M2<1>;"]
 
-    def join(lines):
+    TAIL = ["/* é€ */ ", "/* \U0001F600é */ ", "/*é*/", "/* ü */\t"]
+
+    def join(lines, tail=None):
+        """tail = a last line WITHOUT terminator, non-ASCII text left of its spans"""
         nl = rng.choice(["\n", "\n", "\r\n"])
+        if tail is not None and rng.random() < 0.5:
+            return nl.join(lines) + nl + rng.choice(TAIL) + tail
         return nl.join(lines) + nl
-    disk = {"sub1.td": join(sub1), "sub2.td": join(sub2), "other.td": join(other)}
+    disk = {"sub1.td": join(sub1, "def t1 : S2b;"), "sub2.td": join(sub2, "def t2 : S2b;"),
+            "other.td": join(other, "def to : Oth;")}
     steps = []
+    opened_sub2 = False
     # an included document opened with a text that differs from the disk (line structure shifted)
-    if rng.random() < 0.35:
-        shifted = join(junk() + ["// shifted"] + sub2)
+    if rng.random() < 0.3:
+        shifted = join(junk() + ["// shifted"] + sub2, "def t2 : S2b;")
         steps.append({"open": "sub2.td", "text": shifted})
         overlay = dict(disk, **{"sub2.td": shifted})
+        opened_sub2 = True
     else:
         overlay = dict(disk)
-    text = join(main)
+    text = join(main, "def tm : Foo;")
     steps.append({"open": "main.td", "text": text})
     overlay["main.td"] = text
-    return {"disk": disk, "open_steps": steps, "files": overlay}
+    ws = {"disk": disk, "open_steps": steps, "files": overlay, "family": "static"}
+    # an included file that is NOT open is rewritten on disk (lines inserted above its symbols, other line ends)
+    # between two notifications of the root: the server re-reads it when the root changes
+    if rng.random() < 0.4:
+        cands = ["sub1.td", "other.td"] if opened_sub2 else ["sub1.td", "sub2.td", "other.td"]
+        if not use_other:
+            cands = [c for c in cands if c != "other.td"]
+        victim = rng.choice(cands)
+        body = {"sub1.td": sub1, "sub2.td": sub2, "other.td": other}[victim]
+        tail = {"sub1.td": "def t1 : S2b;", "sub2.td": "def t2 : S2b;", "other.td": "def to : Oth;"}[victim]
+        extra = [rng.choice(["// inserted é", "", "/* x\n y */", "// \U0001F600"]) for _ in range(rng.randrange(1, 4))]
+        if victim == "sub1.td":
+            new_text = join(extra + body, tail)                    # includes stay legal anywhere
+        else:
+            new_text = join(extra + body, tail)
+        text2 = text if rng.random() < 0.5 else join(main + [pre() + "class Extra;"], "def tm : Foo;")
+        ws["rewrite"] = {"path": victim, "text": new_text, "root_text": text2}
+        ws["files"] = dict(overlay, **{victim: new_text, "main.td": text2})
+        ws["files_before"] = overlay
+        ws["family"] = "disk-rewrite"
+    return ws
 
 
 CORPUS = [  # the workspace of defect D6 (DESIGN section C09)
     {"disk": {"sub.td": "\n\nclass Bar;"}, "open_steps": [{"open": "main.td", "text": 'include "sub.td"\nclass Foo : Bar;'}],
-     "files": {"sub.td": "\n\nclass Bar;", "main.td": 'include "sub.td"\nclass Foo : Bar;'}},
+     "files": {"sub.td": "\n\nclass Bar;", "main.td": 'include "sub.td"\nclass Foo : Bar;'}, "family": "static"},
+    # last lines without terminator, non-ASCII text left of the spans, in the root and in the included file
+    {"disk": {"sub.td": "class Bar;\n/* é€ */ class Baz : Bar;"},
+     "open_steps": [{"open": "main.td", "text": 'include "sub.td"\n/* \U0001F600é */ def d : Baz;'}],
+     "files": {"sub.td": "class Bar;\n/* é€ */ class Baz : Bar;", "main.td": 'include "sub.td"\n/* \U0001F600é */ def d : Baz;'},
+     "family": "static"},
+    # the included file is rewritten on disk (two lines inserted) between two notifications of the root
+    {"disk": {"sub.td": "class Bar;\ndef q : Nope;\n"},
+     "open_steps": [{"open": "main.td", "text": 'include "sub.td"\nclass Foo : Bar;\n'}],
+     "rewrite": {"path": "sub.td", "text": "// one\n// two é\nclass Bar;\ndef q : Nope;\n", "root_text": 'include "sub.td"\nclass Foo : Bar;\n'},
+     "files_before": {"sub.td": "class Bar;\ndef q : Nope;\n", "main.td": 'include "sub.td"\nclass Foo : Bar;\n'},
+     "files": {"sub.td": "// one\n// two é\nclass Bar;\ndef q : Nope;\n", "main.td": 'include "sub.td"\nclass Foo : Bar;\n'},
+     "family": "disk-rewrite"},
 ]
+
+
+def pre_steps(w, warm):
+    """everything before the compared requests: the opens; for the disk-rewrite family also some requests that
+    touch the file (warm), the rewrite of the file on disk, and a didChange of the root"""
+    st = list(w["open_steps"]) + [{"wait_idle": True}]
+    if "rewrite" in w:
+        rw = w["rewrite"]
+        st += warm + [{"wait_idle": True}, {"write_disk": rw["path"], "text": rw["text"]},
+                      {"change": "main.td", "text": rw["root_text"]}, {"wait_idle": True}]
+    return st
 
 
 def is_boundary(text_bytes, o):
@@ -304,18 +359,24 @@ def run(ctx):
             scripts.append(None)
             continue
         reqs, mappers = plan(w, ide)
-        steps = sl.cap_in_flight(list(w["open_steps"]) + [{"wait_idle": True}] + [r["step"] for r in reqs] + [{"wait_idle": True}])
-        it = iter(reqs)
-        for si, st in enumerate(steps):
-            if "request" in st:
-                next(it)["id"] = si + 1          # lspdrive: id = step index + 1
+        warm = []
+        if "rewrite" in w:
+            vic = w["rewrite"]["path"]
+            warm = [r["step"] for r in reqs if r["kind"] in ("definition", "references") and r["path"] == "main.td"][:6]
+            warm += [{"request": "documentSymbol", "path": vic}, {"request": "foldingRange", "path": vic}]
+        w["pre_steps"] = pre_steps(w, warm)
+        steps = sl.cap_in_flight(w["pre_steps"] + [r["step"] for r in reqs] + [{"wait_idle": True}])
+        # the compared requests are the LAST len(reqs) request steps (warm-up requests come before)
+        req_idx = [si for si, st in enumerate(steps) if "request" in st][-len(reqs):] if reqs else []
+        for si, r in zip(req_idx, reqs):
+            r["id"] = si + 1                     # lspdrive: id = step index + 1
         plans.append((reqs, mappers))
         scripts.append({"files_on_disk": [[p, t] for p, t in sorted(w["disk"].items())], "mode": "burst",
                         "watchdog_ms": 15000, "quiet_ms": 300, "hard_ms": 90000, "steps": steps})
     idx = [i for i, s in enumerate(scripts) if s is not None]
     outs = dict(zip(idx, sl.run_sessions(bindir, [scripts[i] for i in idx])))
 
-    stats = {"workspaces": 0, "responses": 0, "by_kind": {}, "locations_in_other_file": 0, "non_ascii_or_crlf_files": 0,
+    stats = {"workspaces": 0, "disk_rewrite_sessions": 0, "files_without_final_newline": 0, "responses": 0, "by_kind": {}, "locations_in_other_file": 0, "non_ascii_or_crlf_files": 0,
              "publications": 0, "null_responses": 0, "ide_panics_skipped": 0, "sessions_not_idle": 0}
     oracle_fail, corr_fail, samples = [], [], []
     nontrivial = 0
@@ -331,6 +392,8 @@ def run(ctx):
             stats["sessions_not_idle"] += 1     # liveness is C08's subject; nothing to compare here
             continue
         stats["workspaces"] += 1
+        stats["disk_rewrite_sessions"] += 1 if "rewrite" in w else 0
+        stats["files_without_final_newline"] += sum(1 for t in w["files"].values() if t and t[-1] not in "\r\n")
         stats["non_ascii_or_crlf_files"] += sum(1 for t in w["files"].values() if "\r\n" in t or any(ord(c) > 127 for c in t))
         order = sorted(w["files"])
         resp = {e["id"]: e for e in out["log"] if e.get("ev") == "response"}
@@ -358,7 +421,7 @@ def run(ctx):
             model_lines.append(model_case(r, order, w["files"]))
             model_meta.append((w, r, order, obs))
         # published diagnostics of the last notification
-        last_v = len(w["open_steps"]) - 1
+        last_v = sum(1 for st in w["pre_steps"] if "open" in st or "change" in st) - 1
         pubs = {e["path"]: e for e in out["log"] if e.get("ev") == "publish" and e.get("version") == last_v}
         diag_case = []
         for path, ds in ide["diagnostics"].items():
@@ -410,7 +473,7 @@ def run(ctx):
             continue
         seen.add(key)
         ctx.violation("%s: the server's answer does not denote the analysed span" % json.dumps(f["request"]),
-                      {"property": "C09", "seed": ctx.seed, "disk": f["ws"]["disk"], "open_steps": f["ws"]["open_steps"],
+                      {"property": "C09", "seed": ctx.seed, "disk": f["ws"]["disk"], "pre_steps": f["ws"]["pre_steps"], "family": f["ws"].get("family"),
                        "files": f["ws"]["files"], "request": f["request"], "ide_result": f.get("ide_result"),
                        "expected": f["expected"], "observed": f["observed"],
                        "oracle": "ide-level byte range converted by the reference mapper with the text of the file the result names"})
@@ -449,7 +512,8 @@ def replay(ctx, path):
         print("replay: this file names a broken proof obligation / tie, not an input; re-run ./check C09")
         return 1
     bindir = vlib.build_harness(True, bins=["lspdrive", "idedump"])
-    w = {"disk": r["disk"], "open_steps": r["open_steps"], "files": r["files"]}
+    pre = r.get("pre_steps") or (r["open_steps"] + [{"wait_idle": True}])
+    w = {"disk": r["disk"], "files": r["files"]}
     ide = sl.idedump(bindir, [{"files": [[p, t] for p, t in sorted(w["files"].items())], "root": "main.td",
                                "offsets": "all", "completion": False}])[0]
     reqs, mappers = plan(w, ide)
@@ -458,7 +522,7 @@ def replay(ctx, path):
     print("request   :", json.dumps(req))
     bad = False
     if "publishDiagnostics" in req:
-        sc = {"files_on_disk": [[p, t] for p, t in sorted(w["disk"].items())], "mode": "settled", "steps": w["open_steps"]}
+        sc = {"files_on_disk": [[p, t] for p, t in sorted(w["disk"].items())], "mode": "settled", "steps": pre}
         out = sl.run_session(bindir, sc)
         p = req["publishDiagnostics"]
         e = [x for x in out["log"] if x.get("ev") == "publish" and x["path"] == p]
@@ -470,9 +534,9 @@ def replay(ctx, path):
         bad = exp != obs
     else:
         sc = {"files_on_disk": [[p, t] for p, t in sorted(w["disk"].items())], "mode": "settled",
-              "steps": w["open_steps"] + [req]}
+              "steps": pre + [req]}
         out = sl.run_session(bindir, sc)
-        e = [x for x in out["log"] if x.get("ev") == "response" and x.get("id", 0) > 0]
+        e = [x for x in out["log"] if x.get("ev") == "response" and x.get("id", 0) == len(pre) + 1]
         match = [q for q in reqs if q["step"] == req]
         if not match or not e:
             print("replay: request not reproducible on the current tree (%d planned, %d responses)" % (len(match), len(e)))
